@@ -563,6 +563,55 @@ func init() {
 			return r
 		}
 	}
+	// --- regexp submatches: uninterpreted functions of (regexp, input, group index) -------------------------------
+	reDecl := func(c *FnCtx) {
+		c.smt.declareFun("re_nsub", []string{"Int"}, "Int")
+		c.smt.declareFun("re_group", []string{"Int", "Str", "Int"}, "Str")
+		c.smt.declareFun("re_name", []string{"Int", "Int"}, "Str")
+		c.smt.declareFun("re_match", []string{"Int", "Str"}, "Bool")
+	}
+	externalModels["(*regexp.Regexp).FindStringSubmatch"] = func(fr *Frame, callee *ssa.Function, args []Val, resT types.Type, st *State, reach string, pos token.Pos) Val {
+		c := fr.c
+		reDecl(c)
+		re, s := c.termOf(args[0]), c.termOf(args[1])
+		r := fr.havocVal(resT, "submatch")
+		rt := c.termOf(r)
+		name, sort := c.elemHeap(tStr)
+		al := c.heapGet(st, "alloc", allocSort)
+		nb := c.smt.declareFresh("new.submatch", "Int")
+		c.smt.assume(and(app(">", nb, "0"), not(sel(al, nb))), "fresh result array")
+		arr := c.smt.declareFresh("submatcharr", "(Array Int Str)")
+		c.smt.assume(fmt.Sprintf("(forall ((i Int)) (! (= (select %s i) (re_group %s %s i)) :pattern ((select %s i))))", arr, re, s, arr), "FindStringSubmatch: group texts")
+		c.smt.assume(and(app(">=", app("re_nsub", re), "1"), app("<=", app("re_nsub", re), "72057594037927936")), "a regexp has at least the whole-match group")
+		c.smt.assume(ite(app("re_match", re, s),
+			eq(rt, fmt.Sprintf("(mk_slice %s 0 (re_nsub %s) (re_nsub %s))", nb, re, re)),
+			eq(rt, "(mk_slice 0 0 0 0)")), "FindStringSubmatch: nil when there is no match, else one text per group")
+		h := c.heapGet(st, name, sort)
+		c.heapSet(st, name, sort, sto(h, nb, arr))
+		c.heapSet(st, "alloc", allocSort, sto(al, nb, "true"))
+		return r
+	}
+	externalEffects["(*regexp.Regexp).FindStringSubmatch"] = func(e *Engine, sc *FnCtx, callee *ssa.Function, eff *Effects) {
+		eff.heap(sc.elemHeap(tStr))
+		eff.heap("alloc", allocSort)
+	}
+	externalModels["(*regexp.Regexp).SubexpNames"] = func(fr *Frame, callee *ssa.Function, args []Val, resT types.Type, st *State, reach string, pos token.Pos) Val {
+		c := fr.c
+		reDecl(c)
+		re := c.termOf(args[0])
+		name, sort := c.elemHeap(tStr)
+		al := c.heapGet(st, "alloc", allocSort)
+		nb := c.smt.declareFresh("new.subexpnames", "Int")
+		c.smt.assume(and(app(">", nb, "0"), not(sel(al, nb))), "fresh result array")
+		arr := c.smt.declareFresh("subexparr", "(Array Int Str)")
+		c.smt.assume(fmt.Sprintf("(forall ((i Int)) (! (= (select %s i) (re_name %s i)) :pattern ((select %s i))))", arr, re, arr), "SubexpNames: group names")
+		c.smt.assume(and(app(">=", app("re_nsub", re), "1"), app("<=", app("re_nsub", re), "72057594037927936")), "a regexp has at least the whole-match group")
+		h := c.heapGet(st, name, sort)
+		c.heapSet(st, name, sort, sto(h, nb, arr))
+		c.heapSet(st, "alloc", allocSort, sto(al, nb, "true"))
+		return Val{T: resT, Term: c.smt.define("subexpnames", "Slice", fmt.Sprintf("(mk_slice %s 0 (re_nsub %s) (re_nsub %s))", nb, re, re))}
+	}
+	externalEffects["(*regexp.Regexp).SubexpNames"] = externalEffects["(*regexp.Regexp).FindStringSubmatch"]
 	// --- regexp: matching is an uninterpreted pure function of (compiled regexp, string) --------------------------
 	externalModels["regexp.MustCompile"] = func(fr *Frame, callee *ssa.Function, args []Val, resT types.Type, st *State, reach string, pos token.Pos) Val {
 		c := fr.c
